@@ -109,14 +109,17 @@ def parse_strace(log, cache_dir):
     return effects
 
 
-def crash_states(effects):
+def crash_states(effects, stride=1):
     """Yield (label, effect_prefix) where the last write of the prefix may be
-    cut: every prefix boundary, and every byte offset inside each write."""
+    cut: every prefix boundary, and every byte offset inside each write
+    (every ``stride``-th offset, plus the first and last 16, for stride>1)."""
     for i in range(len(effects) + 1):
         yield (f"after-{i}-effects", list(effects[:i]))
         if i < len(effects) and effects[i][0] == "write":
             _, path, n = effects[i]
             for cut in range(1, n):
+                if stride > 1 and cut % stride and 16 < cut < n - 16:
+                    continue
                 yield (f"in-effect-{i}-write-cut-{cut}/{n}",
                        list(effects[:i]) + [("write", path, cut)])
 
